@@ -2,6 +2,7 @@ import Hive.Base.Proto
 import Hive.Gen.C19_SafeMath
 import Hive.Model.SafeMathOps
 import Hive.Model.SafeMathSearch
+import Hive.Gen.C19_TrCorpus
 open Hive.Proto Hive.GoInt Hive.Gen.SafeMath
 
 /-- `parseTy` of GoInt.lean plus the defined 16-bit types of the harness. -/
@@ -24,6 +25,16 @@ def stepC19 (_ : Unit) (toks : List String) : Unit × String :=
         | "div" => showRes (SafeDiv T x y)
         | "shl" => showRes (SafeLeftShift T x y)
         | _ => "bad-op"
+      | _, _, _ => "bad-op"
+    | ["corpus", name, k, x, y] =>
+      match parseTyC19 k, int? x, int? y with
+      | some T, some x, some y =>
+        match Hive.Gen.SafeMathCorpus.corpusGeneric.lookup name with
+        | some f => showRes (f T x y)
+        | none =>
+          match Hive.Gen.SafeMathCorpus.corpusU64.lookup name with
+          | some g => showRes (g x y)
+          | none => "bad-op"
       | _, _, _ => "bad-op"
     | ["search", fn, k] =>
       match parseTyC19 k with
